@@ -21,6 +21,9 @@
 //	         the referencing spec fields must be read by validation code.
 //	R-C13-5  regexp.MustCompile(spec field) needs format=regexp on the field (or validation code
 //	         that hands it to regexp.Compile).
+//	R-C13-7  sized buffers (make([]T, n), n from configuration) indexed by a cursor / computed slot:
+//	         non-empty by a dominating test, or reviewed with a checked reason (schema minimum of
+//	         the size's spec field, or admission only after `calls < size`) (c13_buf.go).
 //	R-C13-6  non-comma-ok type assertion on ctx.GetInputResponse()/GetOutputResponse() needs a
 //	         dominating non-nil test of the asserted value.
 //
@@ -42,6 +45,14 @@
 //	ratelimiter Policy.LimitForPeriod: `minimum=1` dropped from the tag          -> R-C13-3 acquirePermission|divisor Policy.LimitForPeriod
 //	httpserver Header.Regexp: `format=regexp` dropped from the tag               -> R-C13-5 initHeaderRoute|MustCompile(Header.Regexp)
 //	headerlookup Spec.Validate: regexp.Compile(spec.HeaderKey) (wrong variable)  -> R-C13-5 Init|MustCompile(Spec.PathRegExp)
+//	circuit breaker AcquirePermission: half-open admission `<` -> `<=`, `!=`, `< permitted+1`,
+//	  `permitted >= calls` (seeded regression b and respellings)                 -> R-C13-7 CountBasedWindow.Push|index into sized buffer
+//	transitTo: half-open window sized by policy.MinimumNumberOfCalls              -> R-C13-7 CountBasedWindow.Push|index into sized buffer
+//	CountBasedWindow.Total: new read of bucket[bucketIdx]                         -> R-C13-7 Total|index into sized buffer (unreviewed)
+//	CircuitBreakerPolicy.SlidingWindowSize: `minimum=1` dropped                   -> R-C13-7 (3 obligations) and R-C13-3
+//	InjectResiliencePolicy: a fifth panic site                                    -> R-C13-4 |explicit panic beyond the reviewed count
+//	(silent: admission rewritten as early `if calls >= permitted {return false}`, or through a
+//	local `permitted := ...; if permitted > calls`)
 //	NOT caught (by design, see NotDecided): ServerPool.failureCodes map initialisation removed
 //	(implicit nil-map write); a Validate() that reads the field but tests the wrong value.
 //
@@ -81,6 +92,7 @@ func c13(c *core.Ctx) string {
 	c.Rule("R-C13-3", "every integer divisor / modulus / rand.Intn argument in the reachable code is proven non-zero (positive for Intn) on all paths, or is a spec field with schema minimum >= 1, or is listed in the reviewed table")
 	c.Rule("R-C13-4", "cross references: spec fields naming a resilience policy, whose dangling value makes InjectResiliencePolicy panic, are read by validation code")
 	c.Rule("R-C13-5", "regexp.MustCompile applied to a spec field requires format=regexp on that field (or validation code that compiles it)")
+	c.Rule("R-C13-7", "sized buffers: a struct field that receives make([]T, n) with a run-time n and is indexed by a cursor / computed slot (not a loop variable) in the reachable code is proven non-empty at the index (dominating length test), or reviewed with a checked reason: every size reaching the constructor is a spec field with schema minimum >= 1, or a result is only recorded after a strict test has shown the size positive")
 	c.Rule("R-C13-6", "a non-comma-ok type assertion on the value of ctx.GetInputResponse()/GetOutputResponse() is dominated by a non-nil test of that value")
 	c.NotDecided = []string{
 		"implicit panics in general (nil map/pointer dereference, index out of range, third-party code); only the listed operation classes are audited",
@@ -114,6 +126,8 @@ func c13(c *core.Ctx) string {
 	c13Divisors(c, g, sf)
 	lap("R-C13-3")
 	c13MustCompile(c, g, sf)
+	c13Buffers(c, g, sf)
+	lap("R-C13-7")
 	lap("R-C13-5")
 	return "Audit of the panic sites an accepted configuration can reach: reference call graph from the lifecycle and Handle methods of every filter kind and of Pipeline/HTTPServer/GlobalFilter/MQTTProxy (recover barriers cut), explicit panics and integer divisors enumerated as a ratchet against a reviewed table, spec-field guards matched with validation code by field object, RawPayload/IsStream typestate and response downcasts decided path-sensitively on every path. Not decided: implicit panics in general, request-side downcasts, environment-dependent failures, whether a Validate() that reads a field rejects the right values."
 }
